@@ -3,7 +3,7 @@ CONSTANTS
   Accts = {1, 2}
   Vals = {1, 2}
   MaxOps = 1000000
-  Rich = TRUE
+  Rich = "rich"
   ClearValRevs = TRUE
   GenMode = "none"
 CONSTRAINT HighWater
